@@ -17,6 +17,10 @@ pub enum Plan {
     /// answer with the `index`-th target of the request exactly as it was received
     SelectEchoReceived(usize),
     SelectScripted(pb::Target),
+    /// echo candidate i after this many milliseconds
+    SelectSlowEcho(usize, u64),
+    /// fail the call with this status code
+    SelectStatus(String),
 }
 
 /// A request as it arrived at the mock, together with what the mock answered.
@@ -124,9 +128,29 @@ impl pb::strategy_server::Strategy for MockService {
         request: Request<pb::SelectRequest>,
     ) -> Result<Response<pb::SelectResponse>, Status> {
         let request = request.into_inner();
+        let plan = self.shared.0.lock().unwrap_or_else(|e| e.into_inner()).plan.clone();
+        if let Plan::SelectSlowEcho(_, ms) = &plan {
+            tokio::time::sleep(std::time::Duration::from_millis(*ms)).await;
+        }
         let mut s = self.shared.0.lock().unwrap_or_else(|e| e.into_inner());
-        let (replied, oor) = match s.plan.clone() {
+        if let Plan::SelectStatus(code) = &plan {
+            s.log.push(Recorded::Select { request, replied: None, echo_out_of_range: false });
+            let msg = "mock: the strategy service is in trouble";
+            return Err(match code.as_str() {
+                "cancelled" => Status::cancelled(msg),
+                "deadline_exceeded" => Status::deadline_exceeded(msg),
+                "unavailable" => Status::unavailable(msg),
+                "resource_exhausted" => Status::resource_exhausted(msg),
+                "aborted" => Status::aborted(msg),
+                _ => Status::internal(msg),
+            });
+        }
+        let (replied, oor) = match plan {
             Plan::SelectNone => (None, false),
+            Plan::SelectSlowEcho(i, _) => match request.targets.get(i) {
+                Some(t) => (Some(t.clone()), false),
+                None => (None, true),
+            },
             Plan::SelectEchoReceived(i) => match request.targets.get(i) {
                 Some(t) => (Some(t.clone()), false),
                 None => (None, true),
